@@ -4,6 +4,7 @@
 mod cjoin;
 mod cshim;
 mod gen;
+mod guard;
 mod hist;
 mod kernels;
 mod levels;
